@@ -525,7 +525,20 @@ let front (payload : string) : string =
   | _ -> "bad"
 
 (* ---------------- C15 / C19: ingresses ---------------- *)
+let stock (payload : string) : string =
+  let b c = (c = '1') in
+  match split_on ' ' payload with
+  | ["stock"; kind; aok; inl; masks] when kind = "wl" || kind = "bl" ->
+    let ms = if masks = "-" then [] else List.init (String.length masks) (fun i -> b masks.[i]) in
+    let r = if kind = "wl" then whitelist_admits (b aok.[0]) (b inl.[0]) ms else blacklist_admits (b aok.[0]) (b inl.[0]) ms in
+    if r then "admit" else "veto"
+  | ["stock"; "rate"; cap; n] ->
+    String.concat "" (List.map (fun x -> if x then "1" else "0")
+      (rate_run (nat_of_int (int_of_string cap)) O (nat_of_int (int_of_string n))))
+  | _ -> "bad"
+
 let c15 (payload : string) : string =
+  if String.length payload > 6 && String.sub payload 0 6 = "stock " then stock payload else
   if String.length payload > 3 && (String.sub payload 0 3 = "gw " || String.sub payload 0 3 = "jr " || String.sub payload 0 5 = "conv ") then front payload else
   (* ing <ingress> <cfg 4 bits> <token> <hb ow> <malformed> <target> <h> <C> <dec> *)
   match split_on ' ' payload with
